@@ -231,6 +231,23 @@ Fixpoint c06_snap_aux (c : config) (pre : list event) (t : list event) : bool :=
   end.
 Definition c06_holdsb (c : config) (t : list event) : bool := c06_snap_aux c [] t.
 
+(* after shutdown the map reports the state each runnable had when its Stop() returned (runnables do
+   not change state after Stop() returned): checked at snapshots taken after Run() returned *)
+Fixpoint c06_final_aux (c : config) (pre t : list event) : bool :=
+  match t with
+  | [] => true
+  | e :: t' =>
+    (match e with
+     | ESnap o =>
+       negb (sn_run_returned o) || shutdown_may_fire c ||
+       forallb (fun i => negb (stateable (spec c i)) || negb (mem_ev (EStopRet i) pre)
+                         || opt_st_eqb (nth i (sn_smap o) None) (Some (true_state i pre 0)))
+               (seq 0 (nrun c))
+     | _ => true
+     end) && c06_final_aux c (pre ++ [e]) t'
+  end.
+Definition c06_final (c : config) (t : list event) : bool := c06_final_aux c [] t.
+
 (* after a clean termination (Run returned, no caller blocked, shutdown timeout not configured to
    fire) no library goroutine remains, apart from the closers of subscriptions still open *)
 Definition open_subs (pre : list event) : nat :=
